@@ -101,7 +101,7 @@ theorem find_bound {pat s : Bytes} {i : Nat} (h : find pat s = some i) : i + pat
   have := h2.length_le
   simp at this; omega
 
-private theorem prefix_drop_append {pat s t : Bytes} {j : Nat} (hl : j + pat.length ≤ s.length)
+theorem prefix_drop_append {pat s t : Bytes} {j : Nat} (hl : j + pat.length ≤ s.length)
     (h : pat <+: (s ++ t).drop j) : pat <+: s.drop j := by
   rw [List.drop_append] at h
   have h2 : s.drop j <+: s.drop j ++ t.drop (j - s.length) := List.prefix_append _ _
@@ -136,19 +136,19 @@ private instance decForallU8 (P : UInt8 → Prop) [DecidablePred P] : Decidable 
 
 /-! ### strip -/
 
-private theorem dropWhile_of_head {p : UInt8 → Bool} {s : Bytes}
+theorem dropWhile_of_head {p : UInt8 → Bool} {s : Bytes}
     (h : ∀ c, s.head? = some c → p c = false) : s.dropWhile p = s := by
   cases s with
   | nil => rfl
   | cons c r => simp [h c rfl]
 
-private theorem head_dropWhile (p : UInt8 → Bool) (s : Bytes) :
+theorem head_dropWhile (p : UInt8 → Bool) (s : Bytes) :
     ∀ c, (s.dropWhile p).head? = some c → p c = false := by
   intro c hc
   have := List.head?_dropWhile_not p s
   rw [hc] at this; simpa using this
 
-private theorem all_takeWhile' (p : UInt8 → Bool) (s : Bytes) : (s.takeWhile p).all p = true := by
+theorem all_takeWhile' (p : UInt8 → Bool) (s : Bytes) : (s.takeWhile p).all p = true := by
   induction s with
   | nil => rfl
   | cons c r ih =>
@@ -156,7 +156,7 @@ private theorem all_takeWhile' (p : UInt8 → Bool) (s : Bytes) : (s.takeWhile p
     · simp_all
     · rfl
 
-private theorem rstripBy_spec (p : UInt8 → Bool) (m : Bytes) :
+theorem rstripBy_spec (p : UInt8 → Bool) (m : Bytes) :
     ∃ r, m = rstripBy p m ++ r ∧ r.all p = true := by
   refine ⟨(m.reverse.takeWhile p).reverse, ?_, ?_⟩
   · unfold rstripBy
@@ -222,7 +222,7 @@ theorem splitOn_ne_nil (sep : UInt8) (s : Bytes) : splitOn sep s ≠ [] := by
     · simp
     · split <;> simp
 
-private theorem join_cons_cons (sep : Bytes) (c : UInt8) (h : Bytes) (t : List Bytes) :
+theorem join_cons_cons (sep : Bytes) (c : UInt8) (h : Bytes) (t : List Bytes) :
     join sep ((c :: h) :: t) = c :: join sep (h :: t) := by
   cases t <;> simp [join]
 
@@ -270,7 +270,7 @@ theorem splitOn_of_no_sep {sep : UInt8} {s : Bytes} (h : sep ∉ s) : splitOn se
     simp only [splitOn]
     rw [if_neg (fun e => h.1 e.symm), ih h.2]
 
-private theorem splitWsGo_tokens (s cur : Bytes) (hc : ∀ c ∈ cur, isSpace c = false) :
+theorem splitWsGo_tokens (s cur : Bytes) (hc : ∀ c ∈ cur, isSpace c = false) :
     ∀ t ∈ splitWsGo s cur, t ≠ [] ∧ ∀ c ∈ t, isSpace c = false := by
   induction s generalizing cur with
   | nil =>
@@ -304,7 +304,7 @@ private theorem splitWsGo_tokens (s cur : Bytes) (hc : ∀ c ∈ cur, isSpace c 
 theorem splitWs_tokens (s : Bytes) : ∀ t ∈ splitWs s, t ≠ [] ∧ ∀ c ∈ t, isSpace c = false :=
   splitWsGo_tokens s [] (by simp)
 
-private theorem splitWsGo_flatten (s cur : Bytes) :
+theorem splitWsGo_flatten (s cur : Bytes) :
     (splitWsGo s cur).flatten = cur.reverse ++ s.filter (fun c => !isSpace c) := by
   induction s generalizing cur with
   | nil =>
@@ -405,7 +405,7 @@ theorem findB_eq_cut (c : UInt8) (s : Bytes) : findB c s = (cut c s).map (fun p 
 
 /-! ### splitlines -/
 
-private theorem splitlinesGo_no_brk (b : Bool) (s cur : Bytes) (hc : ∀ c ∈ cur, isBrk c = false) :
+theorem splitlinesGo_no_brk (b : Bool) (s cur : Bytes) (hc : ∀ c ∈ cur, isBrk c = false) :
     ∀ l ∈ splitlinesGo b s cur, ∀ c ∈ l, isBrk c = false := by
   induction s generalizing b cur with
   | nil =>
@@ -435,7 +435,7 @@ private theorem splitlinesGo_no_brk (b : Bool) (s cur : Bytes) (hc : ∀ c ∈ c
 theorem splitlines_no_brk (s : Bytes) : ∀ l ∈ splitlines s, ∀ c ∈ l, isBrk c = false :=
   splitlinesGo_no_brk false s [] (by simp)
 
-private theorem splitlinesGo_ne_nil (b : Bool) (s cur : Bytes) (hc : cur ≠ []) : splitlinesGo b s cur ≠ [] := by
+theorem splitlinesGo_ne_nil (b : Bool) (s cur : Bytes) (hc : cur ≠ []) : splitlinesGo b s cur ≠ [] := by
   induction s generalizing b cur with
   | nil => simp [splitlinesGo, hc]
   | cons d r ih =>
@@ -469,7 +469,7 @@ inductive Lines : Bytes → List Bytes → Prop
   | one (l : Bytes) (b : UInt8) (rest : Bytes) (ls : List Bytes) : (∀ c ∈ l, isBrk c = false) → isBrk b = true →
       ¬ (b = 13 ∧ rest.head? = some 10) → Lines rest ls → Lines (l ++ b :: rest) (l :: ls)
 
-private theorem splitlinesGo_true (s cur : Bytes) :
+theorem splitlinesGo_true (s cur : Bytes) :
     splitlinesGo true s cur =
       if s.head? = some 10 then splitlinesGo false s.tail cur else splitlinesGo false s cur := by
   cases s with
@@ -480,7 +480,7 @@ private theorem splitlinesGo_true (s cur : Bytes) :
     · have : (d == 10) = false := by simpa using hd
       simp [splitlinesGo, hd, this]
 
-private theorem splitlinesGo_spec (n : Nat) (s cur : Bytes) (hn : s.length ≤ n)
+theorem splitlinesGo_spec (n : Nat) (s cur : Bytes) (hn : s.length ≤ n)
     (hc : ∀ c ∈ cur, isBrk c = false) : Lines (cur.reverse ++ s) (splitlinesGo false s cur) := by
   induction n generalizing s cur with
   | zero =>
@@ -578,14 +578,14 @@ theorem anySuffixNoNl_eq_anySuffix (k : Bytes → Bool) (s : Bytes) (h : (10 : U
     anySuffixNoNl k s = anySuffix k s :=
   anySuffixNoNl_eq_anySuffix_of k k s h (fun _ _ => rfl)
 
-private theorem fullMatch_cons_eq (p : UInt8) (ps s : Bytes) :
+theorem fullMatch_cons_eq (p : UInt8) (ps s : Bytes) :
     fullMatch (p :: ps) s = if p == 42 then anySuffix (fullMatch ps) s else
       match s with
       | [] => false
       | c :: cs => p == c && fullMatch ps cs := by
   cases s <;> rfl
 
-private theorem matchNoNl_cons_eq (p : UInt8) (ps s : Bytes) :
+theorem matchNoNl_cons_eq (p : UInt8) (ps s : Bytes) :
     matchNoNl (p :: ps) s = if p == 42 then anySuffixNoNl (matchNoNl ps) s else
       match s with
       | [] => false
@@ -664,10 +664,10 @@ end Glob
 
 /-! ### int() -/
 
-private theorem digit_not_intSpace : ∀ c : UInt8, isDigit c = true → isIntSpace c = false := by decide +kernel
-private theorem digit_not_sign : ∀ c : UInt8, isDigit c = true → c ≠ 43 ∧ c ≠ 45 := by decide +kernel
+theorem digit_not_intSpace : ∀ c : UInt8, isDigit c = true → isIntSpace c = false := by decide +kernel
+theorem digit_not_sign : ∀ c : UInt8, isDigit c = true → c ≠ 43 ∧ c ≠ 45 := by decide +kernel
 
-private theorem digs_digits (need : Bool) (s : Bytes) (v n : Nat) (h : s.all isDigit = true)
+theorem digs_digits (need : Bool) (s : Bytes) (v n : Nat) (h : s.all isDigit = true)
     (hn : s ≠ [] ∨ need = false) :
     digs need s v n = some (s.foldl (fun v c => v * 10 + (c.toNat - 48)) v, n + s.length) := by
   induction s generalizing need v n with
